@@ -39,6 +39,17 @@ type sfCall struct {
 	Sess     *sessions.SessionState
 	SessOut  string                 // session fields after the call
 	Redeemed *sessions.SessionState // the object a Redeem call returned
+	IdentIn  string                 // the fields a provider call never touches, before the call
+	IdentOut string                 // ... and after it
+}
+
+// identFields: what identifies one session and bounds its life — no validation, refresh or revocation
+// changes any of it, whoever's call actually ran.
+func identFields(s *sessions.SessionState) string {
+	if s == nil {
+		return ""
+	}
+	return fmt.Sprintf("email=%s user=%s lifetime_deadline=%d bound_to=%s", s.Email, s.User, s.LifetimeDeadline.Unix(), s.AuthorizedUpstream)
 }
 
 type sfExecution struct {
@@ -170,6 +181,11 @@ func sfOracle(tr *sfTrace, s *sched.Sched, wrappers bool) (out []sfProblem) {
 		}
 	}
 	if wrappers {
+		for _, c := range tr.calls {
+			if c.Sess != nil && c.IdentIn != c.IdentOut {
+				add("W3-session-identity-changed/"+c.Endpoint, fmt.Sprintf("%s by thread %d changed what no provider call may change: before {%s}, after {%s}", c.Endpoint, c.Thread, c.IdentIn, c.IdentOut))
+			}
+		}
 		// callers go on to write into the session they were handed (the callback stamps the request's
 		// host into it): two callers must never be handed one and the same object
 		for i, a := range tr.calls {
@@ -523,7 +539,10 @@ func newSession(o sfOp, thread int) *sessions.SessionState {
 	s := &sessions.SessionState{
 		// one user with several sessions: anything keyed by the user instead of the token collides
 		Email: "user@example.com", Groups: []string{"old-group"},
-		RefreshDeadline: base.Add(-time.Second), ValidDeadline: base.Add(-time.Second), LifetimeDeadline: base.Add(time.Hour),
+		RefreshDeadline: base.Add(-time.Second), ValidDeadline: base.Add(-time.Second),
+		// sessions obtained at different times for different hosts: same user, same tokens perhaps, but
+		// each with its own lifetime bound and host binding
+		LifetimeDeadline: base.Add(time.Hour + time.Duration(thread)*time.Minute), AuthorizedUpstream: fmt.Sprintf("host-%d.sso.test", thread), User: "user",
 	}
 	switch o.Endpoint {
 	case "ValidateSessionState", "Revoke":
@@ -569,6 +588,7 @@ func sfWrapExecute(x *explore.Exec, sc sfWrapScenario) (*sfTrace, *sched.Sched) 
 					case "ValidateSessionState", "RefreshSession", "RefreshSessionIfNeeded", "Revoke":
 						c.Sess = newSession(o, t)
 					}
+					c.IdentIn = identFields(c.Sess)
 					c.Invoke = tr.tick()
 					tr.calls = append(tr.calls, c)
 					switch {
@@ -619,6 +639,7 @@ func sfWrapExecute(x *explore.Exec, sc sfWrapScenario) (*sfTrace, *sched.Sched) 
 					}
 					if c.Sess != nil {
 						c.SessOut = sessFields(c.Sess)
+						c.IdentOut = identFields(c.Sess)
 					}
 					c.Return = tr.tick()
 				}
